@@ -607,6 +607,21 @@ def preset_results(ctx, rule):
 def r8(ctx):
     for r in preset_results(ctx, "C09-R8"):
         yield r
+    # ... and they are the crate's only producers of a SignatureOptions: a parser / converter (`impl FromStr`, `From<&str>`)
+    # is another way to name a mode and has to be reviewed like the presets (e.g. `"s3,url-encode-form"` resetting s3)
+    others = []
+    for body in ctx.facts.all_bodies():
+        if body.path in PRESETS or re.search(r"as std::clone::Clone>::clone$", body.path):
+            continue
+        made = body.aggregates(adt=r"^signature::SignatureOptions$")
+        wrote = [(bi_, s_) for bi_, i_, s_ in body.stmts() if s_["k"] == "assign" and s_["place"]["proj"] and "signature::SignatureOptions" in (body.local_ty(s_["place"]["local"]) or "")]
+        if re.search(r"^<signature::SignatureOptions as std::(str::FromStr|convert::(From|TryFrom)<)", body.path) or ((made or wrote) and body.kind in ("Fn", "AssocFn")):
+            others.append(body)
+    ctx.count()
+    if others:
+        yield VIOL("C09-R8", "preset/other-producer:" + others[0].path, "`%s` also produces a SignatureOptions: a way to select the canonicalisation mode that is not one of the reviewed presets" % others[0].path, where=loc(others[0].j["span"]))
+    else:
+        yield PASS("C09-R8", "preset/only-producers", "S3, url_encode_form() and Default are the only producers of SignatureOptions in the crate", [])
 
 
 @M.rule("C09-R9", "wrappers around the entry point hand the caller's configuration on unchanged")
